@@ -100,7 +100,7 @@ def check(prop, tier, repo, seed):
             for k, v in res.gen.rules.items():
                 rules["%s: %s" % (unit, k)] = v
             sc = res.gen.scan
-            for x in sc["assume_specification"]:
+            for x in sc.get("used_assume_specification", sc["assume_specification"]):
                 trusted.add("assumed std contract: %s" % x)
             for x in sc["external_body"]:
                 trusted.add("external_body (unverified, contract assumed): %s" % x)
@@ -349,6 +349,9 @@ def manifest():
         "notes": "contract-based deductive verification; see DESIGN.md. exit 2 = undecided (never an alarm).",
         "not_applicable": na,
     }
+    m["hooks"]["source_commits"] = ["5ce47b2"]
+    m["hooks"]["enable"] = ("RUSTFLAGS=\"--cfg cfdp_verif\" when building the native program replay/daemon_native (search.py build_daemon_native); "
+                            "cargo kani sets cfg kani for the harness crate; Verus units and the other native programs read /repo source text or use the public API and need no hook")
     m["hooks"].setdefault("guard", "cfdp_verif")
     m["hooks"].setdefault("enable", "cargo kani (sets cfg kani) for harnesses; Verus units and the native search include /repo source text and need no hook")
     m["hooks"].setdefault("baseline_off_cmd", "cd /repo && cargo test --workspace --no-fail-fast --offline")
